@@ -110,6 +110,11 @@ let run_case inp =
         let o = get_int off in
         let isstr = SL.nth termstr (get_int sym) in
         { v = (if isstr then "t" ^ string_of_int o else string_of_int (100 + o)); off = o; fin = o + 1 }
+      | [A "u"; _; off; kind] ->
+        (* an element of set(..): no rule of the setof_ nonterminal assigns a value; when all terminals of the set
+           have one type the reference is typed and reads that type's zero value (types are not modelled) *)
+        let o = get_int off in
+        { v = (match get_int kind with 1 -> "0" | 2 -> "empty" | _ -> "nil"); off = o; fin = o + 1 }
       | [A "l"; elems; st] ->
         let st = get_int st in
         (* a star list starts from the empty rule: its first element already has the list in front *)
